@@ -29,8 +29,8 @@ func (c12) Assumptions() []string {
 		"callbacks only observe (record PC/AllCycles, disassemble); the property does not define callbacks that rewrite the CPU",
 		"cpualt has an OnPC field but no mechanism consulting it: 'where the interpreter offers callbacks' is taken to mean cpu65c816 for OnPC and both for OnWDM",
 		"RunUntil keeps stepping after STP (the property only requires Step to report the stop)",
-		"no interrupts are triggered",
-		"a Step that panics with an index/slice-bounds error (unclaimed C08 defect: effective address beyond 24 bits) ends the run, which is discarded and counted; when only RunUntil panics and the bare-Step twin does not, it is reported",
+		"interrupt requests (TriggerIRQ; NMI through the exported Interrupt field) occur only in the bare-CPU lifecycle scripts, where the fetched opcode is predicted through the vector; OnPC is not registered in scripts that contain them",
+		"a Step that panics (unclaimed C08: 'never crashes') ends the run, which is discarded and counted; when only RunUntil panics and the bare-Step twin does not, it is reported",
 	}
 }
 func (c12) Components() map[string][]string {
